@@ -1595,7 +1595,7 @@ impl<'arena> PrettyFormatter<'arena> {
     }
 
     fn named_term(&self, term: TermId, field: &FieldName, inner: TermId) -> RcDoc<'arena> {
-        let payload = self.punning.term_payload(field, inner);
+        let payload = self.punning.term_payload(field, self.transparent_term_group(inner));
         match payload {
             | Some(PunnedTermPayload::Variable) => RcDoc::text("= ").append(self.field(field)),
             | Some(PunnedTermPayload::Annotated { variable, classifier }) => {
@@ -1695,7 +1695,7 @@ impl<'arena> PrettyFormatter<'arena> {
     }
 
     fn named_pattern(&self, pattern: PatId, field: &FieldName, inner: PatId) -> RcDoc<'arena> {
-        match self.punning.pattern_payload(field, inner) {
+        match self.punning.pattern_payload(field, self.transparent_pattern_group(inner)) {
             | Some(PunnedPatternPayload::Variable) => RcDoc::text("= ").append(self.field(field)),
             | Some(PunnedPatternPayload::Annotated { variable, classifier }) => {
                 RcDoc::text("= ").append(self.field(field)).append(self.fragment_boundary(
@@ -1713,7 +1713,7 @@ impl<'arena> PrettyFormatter<'arena> {
     }
 
     fn projection_pattern(&self, pattern: PatId, field: &FieldName, inner: PatId) -> RcDoc<'arena> {
-        match self.punning.pattern_payload(field, inner) {
+        match self.punning.pattern_payload(field, self.transparent_pattern_group(inner)) {
             | Some(PunnedPatternPayload::Variable) => RcDoc::text("/").append(self.field(field)),
             | Some(PunnedPatternPayload::Annotated { variable, classifier }) => {
                 RcDoc::text("/").append(self.field(field)).append(self.fragment_boundary(
@@ -1891,6 +1891,20 @@ impl<'arena> PrettyFormatter<'arena> {
                 }
                 | _ => return None,
             }
+        }
+    }
+
+    /// The payload a field is punned against: a singleton group that prints without its
+    /// parentheses is looked through, so the output is punned in the same run that elides them.
+    fn transparent_term_group(&self, term: TermId) -> TermId {
+        if let Term::Paren(Paren(terms)) = &self.arena.terms[&term]
+            && let [inner] = terms.as_slice()
+            && self.should_elide_parentheses(term.into(), (*inner).into())
+            && self.arena.trivia.leading_comments(term.into()).is_empty()
+        {
+            self.transparent_term_group(*inner)
+        } else {
+            term
         }
     }
 
